@@ -653,6 +653,15 @@ func (env *Environment) handleHooks(workflow workflow.Role, trigger string, weig
 	for k := range callsMapForAwait {
 		allWeightsSet[k] = callable.Hooks{}
 	}
+	// A call started in this pass may have to be awaited at a later weight of the same
+	// trigger at which nothing else happens: that weight must be visited too.
+	for _, hooksForWeight := range hooksMapForTrigger {
+		for _, call := range hooksForWeight.FilterCalls() {
+			if awaitName, awaitWeight := callable.ParseTriggerExpression(call.GetTraits().Await); awaitName == trigger {
+				allWeightsSet[awaitWeight] = callable.Hooks{}
+			}
+		}
+	}
 	allWeights := allWeightsSet.GetWeights()
 
 	filteredWeights := make([]callable.HookWeight, 0)
